@@ -316,6 +316,13 @@ if __name__ == "__main__":
                 print("%3d  %-60s -> %s" % (i + 1, o, parts[i] if i < len(parts) else "?"))
             if ans in ("ABORT", "MISSING"):
                 print(ans, vlib.sh([exe, "--mode=" + dn, sc])[1][-300:])
+                ol = line.split(" ; ")
+                pre = [" ; ".join(ol[:j]) for j in range(2, len(ol) + 1)]
+                pa = run_cases(exe, dn, pre, sc)
+                for j, x in enumerate(pa):
+                    if x in ("ABORT", "MISSING"):
+                        print("first aborting prefix ends at step %d (%s); answers before: %s" % (j + 1, ol[j + 1], pa[j - 1] if j else ""))
+                        break
             print("oracle:", w)
         sys.exit(0)
     rep = _Rep(a.prop)
